@@ -411,7 +411,18 @@ def r19_8_code_slice_zero_pad(repo: Repo, rep: Report):
             upper = origin_text(mm, f, n.slice.upper).replace("$", "").replace(" ", "") if n.slice.upper is not None else None
             ok = upper is not None and any(g in (f"{upper}<len(self._fastcode)", f"{upper}<=len(self._fastcode)") for g in gs)
             rep.check("R19.8", ok, mm, n, f"{q}: {src(n)} under {sorted(gs)}", "a raw slice of the concrete prefix must be limited to reads that end inside it (Python truncates, the EVM zero-pads)")
-        rep.check("R19.8", len(raw) == 1, mm, f, f"{q}: {len(raw)} raw slice(s) of the concrete prefix", "fast path vanished or duplicated")
+        # the fast path may live in a helper method of Contract (`self._helper(start, stop)`): its raw slice is then
+        # checked by the all-methods clause below
+        via = []
+        if not raw:
+            cls = next(c for c in mm.tree.body if isinstance(c, ast.ClassDef) and c.name == "Contract")
+            meths = {x.name: x for x in cls.body if isinstance(x, (ast.FunctionDef, ast.AsyncFunctionDef))}
+            for c in ast.walk(f):
+                if isinstance(c, ast.Call) and isinstance(c.func, ast.Attribute) and src(c.func.value) == "self" and c.func.attr in meths and c.func.attr not in ("slice", "unwrapped_slice"):
+                    h = meths[c.func.attr]
+                    if any(isinstance(n, ast.Subscript) and isinstance(n.slice, ast.Slice) and origin_text(mm, h, n.value).replace("$", "") == "self._fastcode" for n in ast.walk(h)) and [src(a) for a in c.args] == ["start", "stop"] and [a.arg for a in h.args.args[1:]] == ["start", "stop"]:
+                        via.append(c.func.attr)
+        rep.check("R19.8", len(raw) == 1 or len(via) == 1, mm, f, f"{q}: {len(raw)} raw slice(s) of the concrete prefix" + (f" (through self.{via[0]}(start, stop))" if via else ""), "fast path vanished or duplicated")
         slow = [r for r in body_walk(f) if isinstance(r, ast.Return) and "self._code.slice(start, stop)" in src(r.value)]
         rep.check("R19.8", bool(slow), mm, f, f"{q}: falls back to self._code.slice(start, stop)", "no zero-padding fallback")
     # round 7: the same holds in every other method of Contract (e.g. a 'native' operand read in the decoder)
